@@ -14,7 +14,10 @@ Record ntc_case := {
   ntc_own : list nt_ticket;                             (* tickets attached to the received block *)
   ntc_notarized : bool;                                 (* IsBlockNotarized after processVerifyBlock *)
   ntc_merged : list nat;                                (* verifiers of the block's tickets afterwards, in order *)
-  ntc_lists : list (list nt_ticket * bool)              (* VerifyNotarization(list) = nil *)
+  ntc_lists : list (list nt_ticket * bool);             (* VerifyNotarization(list) = nil *)
+  ntc_nots : list ((list nt_ticket * list nt_ticket) * (bool * list nat))
+     (* Notarization messages, each for a fresh copy of the block: (tickets the block holds, tickets of
+        the message) -> (treated as notarized, verifiers of the block's tickets afterwards, in order) *)
 }.
 
 Definition ntc_p : Z := 16798108731015832284940804142231733909759579603404752749028378864165570215949.
@@ -33,4 +36,8 @@ Definition ntc_check (k : ntc_case) : bool :=
       list_eqb Nat.eqb (firstn (length (ntc_own k)) m) (firstn (length (ntc_own k)) (ntc_merged k))
       && ntc_subset m (ntc_merged k) && ntc_subset (ntc_merged k) m
       && Nat.eqb (length m) (length (ntc_merged k)))
-  && forallb (fun v => Bool.eqb (nt_verify_notarization c (fst v)) (snd v)) (ntc_lists k).
+  && forallb (fun v => Bool.eqb (nt_verify_notarization c (fst v)) (snd v)) (ntc_lists k)
+  && forallb (fun v => let '((own, inc), (ok, after)) := v in
+                       Bool.eqb (nt_notarization_process c own inc) ok
+                       && list_eqb Nat.eqb (nt_vids (nt_notarization_merged c own inc)) after)
+             (ntc_nots k).
